@@ -5,6 +5,7 @@ package main
 import (
 	"fmt"
 	"go/ast"
+	"go/constant"
 	"go/token"
 	"go/types"
 	"sort"
@@ -56,6 +57,7 @@ func checkC12(ctx *Ctx, r *Report) {
 	c12DefinitionKeys(ctx, r, p)
 	c12UnionWrapperClassified(ctx, r)
 	c12NoSiblingsOfRef(ctx, r, p)
+	c12FourthRound(ctx, r, p)
 }
 
 func c12Method(p *packages.Package, name string) *ast.FuncDecl {
@@ -1079,4 +1081,155 @@ func c12NoSiblingsOfRef(ctx *Ctx, r *Report, p *packages.Package) {
 	}
 	r.Count("value keywords written on an already formatted type", n)
 	r.Floor("value keywords written on an already formatted type", 1)
+}
+
+// c12FourthRound — third hunting pass.
+// (a) the default of an object itself (`Name: string | *"foo"`) is written on its definition: objectToDefinition
+// sets "default" from the object's Type.Default. (b) a definition name is data: the text written after
+// `#/definitions/` / `#/components/schemas/` is a JSON Pointer token inside a URI fragment, so every Sprintf that
+// builds such a reference receives the name through a function that escapes `~`, `/` and percent-encodes; and
+// the JSON Schema front-end undoes both when it names an object after a reference's location. (c) Go's
+// encoding/json writes []uint8 as a base64 string while the emitted schema describes an array of integers: the Go
+// type formatter has to tell an array of uint8 from the other arrays (or a marshaller has to).
+func c12FourthRound(ctx *Ctx, r *Report, p *packages.Package) {
+	info := p.TypesInfo
+	// (a)
+	if fd := c12Method(p, "objectToDefinition"); fd == nil {
+		r.Undecided("anchor lost: jsonschema.objectToDefinition")
+	} else {
+		var objParam types.Object
+		for _, f := range fd.Type.Params.List {
+			for _, nm := range f.Names {
+				if t := namedOf(info.TypeOf(nm)); t != nil && t.Obj().Name() == "Object" {
+					objParam = info.Defs[nm]
+				}
+			}
+		}
+		sets := false
+		ast.Inspect(fd.Body, func(m ast.Node) bool {
+			c, ok := m.(*ast.CallExpr)
+			if !ok || len(c.Args) != 2 {
+				return true
+			}
+			if fn := callee(info, c); fn == nil || fn.Name() != "Set" {
+				return true
+			}
+			if tv, ok := info.Types[c.Args[0]]; !ok || tv.Value == nil || constant.StringVal(tv.Value) != "default" {
+				return true
+			}
+			if sel, ok := ast.Unparen(c.Args[1]).(*ast.SelectorExpr); ok && sel.Sel.Name == "Default" {
+				if s2, ok := ast.Unparen(sel.X).(*ast.SelectorExpr); ok && s2.Sel.Name == "Type" {
+					if id, ok := ast.Unparen(s2.X).(*ast.Ident); ok && objOf(info, id) == objParam {
+						sets = true
+					}
+				}
+			}
+			return true
+		})
+		r.Check(sets, "skeleton/object-default-emitted", "jsonschema.objectToDefinition default", fd.Pos(), "the definition carries the object's own default",
+			"objectToDefinition never writes `default`: only struct fields get one, and an object with a default of its own (Name: string | *\"foo\", an enum, an array) loses it in #/definitions and #/components/schemas")
+	}
+	// (b) emitters
+	escapes := func(fn *types.Func) bool {
+		fd, pp := ctx.DeclOf(fn)
+		if fd == nil || fd.Body == nil || pp == nil {
+			return false
+		}
+		pct, tilde, slash := false, false, false
+		ast.Inspect(fd.Body, func(m ast.Node) bool {
+			switch x := m.(type) {
+			case *ast.CallExpr:
+				if f := callee(pp.TypesInfo, x); f != nil && f.Pkg() != nil && f.Pkg().Path() == "net/url" && (f.Name() == "PathEscape" || f.Name() == "QueryEscape") {
+					pct = true
+				}
+			case *ast.BasicLit:
+				if x.Kind == token.STRING {
+					switch x.Value {
+					case `"~0"`:
+						tilde = true
+					case `"~1"`:
+						slash = true
+					}
+				}
+			}
+			return true
+		})
+		return pct && tilde && slash
+	}
+	nRefs := 0
+	for _, rel := range []string{"internal/jennies/jsonschema", "internal/jennies/openapi"} {
+		pp := ctx.Pkg(rel)
+		if pp == nil {
+			continue
+		}
+		for _, file := range pp.Syntax {
+			var fname string
+			ast.Inspect(file, func(m ast.Node) bool {
+				if d, ok := m.(*ast.FuncDecl); ok {
+					fname = d.Name.Name
+				}
+				c, ok := m.(*ast.CallExpr)
+				if !ok || len(c.Args) < 2 {
+					return true
+				}
+				if fn := callee(pp.TypesInfo, c); fn == nil || fn.FullName() != "fmt.Sprintf" {
+					return true
+				}
+				tv, ok := pp.TypesInfo.Types[c.Args[0]]
+				if !ok || tv.Value == nil || tv.Value.Kind() != constant.String {
+					return true
+				}
+				format := constant.StringVal(tv.Value)
+				if !strings.HasPrefix(format, "#/") || !strings.Contains(format, "%s") {
+					return true
+				}
+				nRefs++
+				okArg := false
+				if inner, ok := ast.Unparen(c.Args[1]).(*ast.CallExpr); ok {
+					if f := callee(pp.TypesInfo, inner); f != nil && escapes(f) {
+						okArg = true
+					}
+				}
+				r.Check(okArg, "keywords/ref-token-escaped", fmt.Sprintf("%s.%s builds %q", pp.Types.Name(), fname, format), c.Pos(), "the name goes through a function that escapes ~, / and percent-encodes",
+					fmt.Sprintf("the reference %q is built from %s as is: a definition name holding `~`, `/`, a space, `<`… gives a `$ref` that every loader resolves to another name — a dangling reference (cog's own front-end rejects the document)", format, exprString(c.Args[1])))
+				return true
+			})
+		}
+	}
+	r.Count("reference texts built by the schema jennies", nRefs)
+	r.Floor("reference texts built by the schema jennies", 2)
+	// (b) the front-end
+	if fp := ctx.Pkg("internal/jsonschema"); fp != nil {
+		if fd := c12Method(fp, "definitionNameFromRef"); fd == nil {
+			r.Undecided("anchor lost: jsonschema.definitionNameFromRef")
+		} else {
+			pct, tilde, slash := false, false, false
+			ast.Inspect(fd.Body, func(m ast.Node) bool {
+				switch x := m.(type) {
+				case *ast.CallExpr:
+					if f := callee(fp.TypesInfo, x); f != nil && f.Pkg() != nil && f.Pkg().Path() == "net/url" && (f.Name() == "PathUnescape" || f.Name() == "QueryUnescape") {
+						pct = true
+					}
+				case *ast.BasicLit:
+					switch x.Value {
+					case `"~0"`:
+						tilde = true
+					case `"~1"`:
+						slash = true
+					}
+				}
+				return true
+			})
+			r.Check(pct && tilde && slash, "roundtrip/ref-name-decoded", "jsonschema.definitionNameFromRef decodes the location's last segment", fd.Pos(), "percent-decoding and JSON Pointer unescaping are undone",
+				"the object is named after the last segment of the reference's location taken as is, i.e. still escaped: #/definitions/My%20Type declares an object called `My%20Type` — not its own name — and the emitted key / reference pair no longer resolves")
+		}
+	}
+	c12GoByteArrays(ctx, r)
+}
+
+// c12GoByteArrays: Go's encoding/json writes []uint8 as a base64 string; the IR, the emitted schema and the other
+// languages say "array of integers". The rule is C01's (kinds/go-byte-slice-trap); it is shared by C11 (Go and Python
+// agree on the wire) and C12 (every encoded Go value validates against the emitted schema).
+func c12GoByteArrays(ctx *Ctx, r *Report) {
+	c01GoByteSliceTrap(ctx, r)
 }
